@@ -39,6 +39,7 @@ where
         .codegen_set_addr(LOOP_ADDR)
         .jump(LOOP_ADDR);
     emulator.cpu.regs.set_pc(LOOP_ADDR);
+    emulator.cpu.reset_execution_state();
 
     // Directly load screen memory from the asset
     let memory = emulator.controller.memory.ram_page_data_mut(bank);
